@@ -229,6 +229,12 @@ theorem C02_fails_on_packed_member_gap :
     (emit {} witnessPackedGap).map (packedGap witnessPackedGap) = some true ∧
     summary {} witnessPackedGap = some (some (12, 4, [(0, 0), (1, 1), (2, 4)])) := by decide
 
+/-- a union of unnamed bit-fields ending in `:0` has no field in the IR, is considered zero-sized and
+gets `_address: u8`: Rust size 1, C size 3 -/
+theorem C02_fails_on_union_bitfields_dropped :
+    (emit {} witnessUnionDropped).map (unionBitfieldsDropped witnessUnionDropped) = some true ∧
+    summary {} witnessUnionDropped = some (some (1, 1, [])) := by decide
+
 /-- a bit-field unit lands at byte 1, libclang has its bit-field at bit 32 (byte 4): size, alignment
 and the offsets of plain members agree with C, the bit-field accessors touch the wrong bytes -/
 theorem C02_fails_on_bitfield_unit_misplaced :
